@@ -469,6 +469,9 @@ func buildVariants(mode string, w *World, h *History, base *Transcript, r *rand.
 			{Name: "non-validator-node", NodeVal: &other, NodeSeed: 7},
 			{Name: "other-validator-node", NodeVal: &nv, NodeSeed: 3},
 			{Name: "rotation-recent1", Rotation: config.ChainStateRotationCfg{Recent: 1, Every: 0, Cycles: 0}},
+			// a node with another process lifetime: restarted after two commits (the blocks it is
+			// fed are the same; what differs is which in-memory state it carries)
+			{Name: "restarted-node", CrashAt: map[[2]int]bool{{len(h.Blocks) / 3, 1001}: true, {2 * len(h.Blocks) / 3, 1001}: true}},
 		}
 	}
 	panic("bad mode")
